@@ -13,13 +13,10 @@ use parking_lot::Mutex;
 use std::collections::HashMap;
 use std::sync::Arc;
 
-struct RepPeer {
-    pub(crate) _identity: PeerIdentity,
-    pub(crate) send_queue: ZmqFramedWrite,
-}
+use crate::backend::{next_conn, ForgetConn, Peer};
 
 struct RepSocketBackend {
-    pub(crate) peers: scc::HashMap<PeerIdentity, RepPeer>,
+    pub(crate) peers: scc::HashMap<PeerIdentity, Arc<Peer>>,
     fair_queue_inner: Arc<Mutex<QueueInner<ZmqFramedRead, PeerIdentity>>>,
     socket_monitor: Mutex<Option<mpsc::Sender<SocketEvent>>>,
     socket_options: SocketOptions,
@@ -28,7 +25,8 @@ struct RepSocketBackend {
 pub struct RepSocket {
     backend: Arc<RepSocketBackend>,
     envelope: Option<ZmqMessage>,
-    current_request: Option<PeerIdentity>,
+    /// The requester: its identity and the number of the connection the request came in on
+    current_request: Option<(PeerIdentity, u64)>,
     fair_queue: FairQueue<ZmqFramedRead, PeerIdentity>,
     binds: HashMap<Endpoint, AcceptStopHandle>,
 }
@@ -74,17 +72,18 @@ impl Socket for RepSocket {
     }
 }
 
-impl RepSocketBackend {
-    /// `peer_disconnected` for a caller that held the peer's table entry across an await. Meanwhile
-    /// a task registering another peer may have queued for the same bucket; it is next in line
-    /// and may need this very thread to run, so the removal is awaited: a blocking wait could
-    /// never be granted on a single-threaded runtime.
-    async fn forget_peer(&self, peer_id: &PeerIdentity) {
-        if let Some(monitor) = self.monitor().lock().as_mut() {
-            let _ = monitor.try_send(SocketEvent::Disconnected(peer_id.clone()));
+impl ForgetConn for RepSocketBackend {
+    fn forget_conn(&self, peer_id: &PeerIdentity, conn: u64) {
+        let forgotten = self
+            .peers
+            .remove_if_sync(peer_id, |peer| peer.conn == conn)
+            .is_some();
+        if forgotten {
+            if let Some(monitor) = self.monitor().lock().as_mut() {
+                let _ = monitor.try_send(SocketEvent::Disconnected(peer_id.clone()));
+            }
         }
-        self.peers.remove_async(peer_id).await;
-        self.fair_queue_inner.lock().remove(peer_id);
+        self.fair_queue_inner.lock().remove_conn(peer_id, conn);
     }
 }
 
@@ -93,18 +92,13 @@ impl MultiPeerBackend for RepSocketBackend {
     async fn peer_connected(self: Arc<Self>, peer_id: &PeerIdentity, io: FramedIo) {
         let (recv_queue, send_queue) = io.into_parts();
 
+        let conn = next_conn();
         self.peers
-            .upsert_async(
-                peer_id.clone(),
-                RepPeer {
-                    _identity: peer_id.clone(),
-                    send_queue,
-                },
-            )
+            .upsert_async(peer_id.clone(), Peer::new(conn, send_queue))
             .await;
         self.fair_queue_inner
             .lock()
-            .insert(peer_id.clone(), recv_queue);
+            .insert_conn(peer_id.clone(), conn, recv_queue);
     }
 
     fn peer_disconnected(&self, peer_id: &PeerIdentity) {
@@ -139,15 +133,26 @@ impl SocketBackend for RepSocketBackend {
 impl SocketSend for RepSocket {
     async fn send(&mut self, mut message: ZmqMessage) -> ZmqResult<()> {
         match self.current_request.take() {
-            Some(peer_id) => {
-                if let Some(mut peer) = self.backend.peers.get_async(&peer_id).await {
+            Some((peer_id, conn)) => {
+                let peer = self
+                    .backend
+                    .peers
+                    .read_async(&peer_id, |_, peer| peer.clone())
+                    .await
+                    // (a newer connection under the requester's identity is not the requester)
+                    .filter(|peer| peer.conn == conn);
+                if let Some(peer) = peer {
                     if let Some(envelope) = self.envelope.take() {
                         message.prepend(&envelope);
                     }
-                    let sent = peer.send_queue.send(Message::Message(message)).await;
-                    drop(peer);
+                    let sent = peer
+                        .send_queue
+                        .lock()
+                        .await
+                        .send(Message::Message(message))
+                        .await;
                     if let Err(e) = sent {
-                        self.backend.forget_peer(&peer_id).await;
+                        self.backend.forget_conn(&peer_id, conn);
                         return Err(e.into());
                     }
                     Ok(())
@@ -190,7 +195,7 @@ impl SocketRecv for RepSocket {
                         }
                         let data = m.split_off(at);
                         self.envelope = Some(m);
-                        self.current_request = Some(peer_id);
+                        self.current_request = Some((peer_id, self.fair_queue.last_conn()));
                         return Ok(data);
                     }
                     Message::Greeting(_) | Message::Command(_) => {
@@ -198,7 +203,8 @@ impl SocketRecv for RepSocket {
                     }
                 },
                 Some((peer_id, Err(e))) => {
-                    self.backend.peer_disconnected(&peer_id);
+                    self.backend
+                        .forget_conn(&peer_id, self.fair_queue.last_conn());
                     return Err(e.into());
                 }
                 None => {
